@@ -24,6 +24,37 @@ ERR_FILES = ('yaml/scanner.py', 'yaml/parser.py', 'yaml/composer.py', 'yaml/cons
 PLACEHOLDER = '<msg>'
 
 
+_opcode_installed = False
+
+
+def install_opcode_models(m1=True):
+    """M1b: CPython >= 3.12 compiles  "...%r..." % (a, b)  with a literal format and a
+    tuple display into FORMAT_VALUE/BUILD_STRING, so no str.__mod__ call exists to patch.
+    In the error-message files the formatted operand is replaced by the placeholder."""
+    global _opcode_installed
+    if _opcode_installed or not m1:
+        return
+    _opcode_installed = True
+    from crosshair import core
+    from crosshair.tracers import TracingModule, frame_stack_read, frame_stack_write
+    from crosshair.opcode_intercept import FORMAT_VALUE, CONVERT_VALUE, FormatStashingValue, frame_op_arg
+
+    class ErrorMessageFormatValue(TracingModule):
+        opcodes_wanted = frozenset([FORMAT_VALUE, CONVERT_VALUE])
+
+        def trace_op(self, frame, codeobj, codenum):
+            if not frame.f_code.co_filename.endswith(ERR_FILES):
+                return
+            flags = frame_op_arg(frame)
+            idx = -2 if flags == 0x04 else -1
+            obj = frame_stack_read(frame, idx)
+            if isinstance(obj, FormatStashingValue):
+                obj.value = PLACEHOLDER
+            else:
+                frame_stack_write(frame, idx, PLACEHOLDER)
+    core._OPCODE_PATCHES.append(ErrorMessageFormatValue())
+
+
 def overrides(m1=True):
     """{builtin: override} to be added as a *second* layer on CrossHair's patching module
     (engine.run_cell does that after entering Patched()); a call of the same builtin made
@@ -157,4 +188,38 @@ def overrides(m1=True):
             with NoTracing():
                 return SymbolicBytes(vals)
         return codecs.encode(obj, encoding, errors)
-    return {str.__mod__: _fmt, int: _int, float: _float, codecs.encode: _encode}
+    # M7: hasattr/getattr(obj, symbolic_name) on the harness's stand-in modules (objects
+    # that list their attribute names in __verif_names__): symbolic comparison with each
+    # name instead of realising the name inside the C builtin.
+    _MISSING = object()
+
+    def _names_of(obj):
+        with NoTracing():
+            try:
+                return object.__getattribute__(obj, '__verif_names__')
+            except Exception:
+                return None
+
+    def _hasattr(obj, name):
+        names = _names_of(obj)
+        if names is None:
+            return hasattr(obj, name)
+        for n in names:
+            if name == n:
+                return True
+        return False
+
+    def _getattr(obj, name, default=_MISSING):
+        names = _names_of(obj)
+        if names is None:
+            if default is _MISSING:
+                return getattr(obj, name)
+            return getattr(obj, name, default)
+        for n in names:
+            if name == n:
+                return object.__getattribute__(obj, n)
+        if default is _MISSING:
+            raise AttributeError(PLACEHOLDER)
+        return default
+    return {str.__mod__: _fmt, int: _int, float: _float, codecs.encode: _encode,
+            hasattr: _hasattr, getattr: _getattr}
